@@ -488,6 +488,27 @@ func genC04(g *Gen) {
 		}
 	}
 
+	// (3b) a few tall Decode cases (heights 13, 14: more than 128 / 256 bitmap words), sparse bitmaps with
+	//      bits in the last words
+	for k, nk := 0, g.N(4, 40); k < nk; k++ {
+		h := g.R.Range(13, 14)
+		T := int32(uint32(1)<<uint(h) | uint32(g.R.U64())&(uint32(1)<<uint(h)-1))
+		if k%2 == 0 {
+			T = int32(uint32(1)<<uint(h+1) - 1 - uint32(g.R.Intn(4)))
+		}
+		nw := (int(T)+63)/64 + g.R.Pick(0, 0, 2, -1)
+		bm := make([]uint64, nw)
+		for j := 0; j < 6; j++ {
+			bm[g.R.Intn(nw)] |= 1 << uint(g.R.Intn(64))
+			bm[nw-1-g.R.Intn(4)] |= 1 << uint(g.R.Intn(64))
+		}
+		bm[(int(T)-1)>>6%nw] |= 1 << uint((int(T)-1)&63)
+		decode(T, bm, "D-tall")
+		st := c04Stored(T, h)
+		S := []c04Node{st[0], st[len(st)/2], st[len(st)-2], st[len(st)-1]}
+		roundtrip(T, S, "R-tall")
+	}
+
 	// (4) Decode / round trip, heights 0..10 (thorough: 12): bitmaps of ceil(T/64)-1, +0, +2 words,
 	//     bits at and beyond T
 	hmax := 10
